@@ -5,13 +5,14 @@ sys.path.insert(0, os.path.dirname(os.path.abspath(__file__)))
 import tie, props, textcmp
 from fp import FMTS
 from sxp import dump
-ml = tie.extract_model(); cx = tie.cxx_build()
+ml = tie.extract_model(); cx = tie.cxx_build(); cxm = None
 tier = os.environ.get('VERIF_TIER', 'quick'); seed = int(os.environ.get('VERIF_SEED', '1'))
 for pid in sys.argv[1:]:
     t0 = time.time()
     rng = random.Random(seed * 1000003 + int(pid[1:]))
     cases, metas = props.generate(pid, rng, tier)
-    res = tie.run_pair(cases, cx, ml)
+    if props.PROPS[pid].get('mpi') and cxm is None: cxm = tie.cxx_build('-DVERIF_MPI', 'mpi')
+    res = tie.run_pair(cases, cxm if props.PROPS[pid].get('mpi') else cx, ml)
     nd = 0
     for r in res:
         d = textcmp.compare(r['cxx'], r['model'], FMTS.get(r['case'][1], FMTS['d']))
